@@ -1060,6 +1060,8 @@ STATEMENTS = {
 	'fragment_relay': "PatternParser.break_relay('recv<op>ident') = (recv, op) for every identifier and every non-empty one-line receiver",
 	'fragment_dict_iterator': "PatternParser.break_dict_iterator('recv<op>m()') = (recv, op, m)",
 	'fragment_cvar_suffix': 'sub_cvar_relay / sub_cvar_to strip a trailing <op>name() iff name IS on / a cast word (xon(), draw() untouched)',
+	'initializer_call_callee': 'Py2Cpp.is_initializer_call accepts only <type>( … ) whose text before the last top-level block IS the type: a callee that merely begins with the type name (Widget_build, int_of) is rejected',
+	'initializer_call_prefix_counterexample': 'REGRESSION (seeded mutation): the prefix test without its ( accepts Widget_build(2) for the type Widget',
 	'fragment_class_var_name': "pluck_class_var_name('<type> <name> = …') = name for a blank-free type",
 	'equivariant': 'bundle of the equivariant_* theorems for an injective renaming that fixes the reserved words',
 	'string_refines': 'bundle of the string_refines_* theorems for well-formed names',
@@ -1361,7 +1363,7 @@ def gen_fragment(rng: random.Random) -> str:
 def stream_fragments(ctx: Ctx) -> Stream:
 	"""The REAL PatternParser regex helpers and Enum.var_value vs the model."""
 	import rogw.tranp.syntax.node.definition as defs
-	from rogw.tranp.implements.cpp.transpiler.py2cpp import PatternParser
+	from rogw.tranp.implements.cpp.transpiler.py2cpp import PatternParser, Py2Cpp
 	rng = ctx.sub_rng('fragments')
 	cases = []
 
@@ -1377,6 +1379,16 @@ def stream_fragments(ctx: Ctx) -> Stream:
 		s = gen_fragment(rng)
 		ops = [f'frag.relay\t{hx(s)}', f'frag.dictiter\t{hx(s)}', f'frag.subrelay\t{hx(s)}', f'frag.subto\t{hx(s)}', f'frag.classvar\t{hx(s)}']
 		outs = [grp(PatternParser.break_relay, s), grp(PatternParser.break_dict_iterator, s), hx(PatternParser.sub_cvar_relay(s)), hx(PatternParser.sub_cvar_to(s)), hx(PatternParser.pluck_class_var_name(s))]
+		# is_initializer_call(value, var_type): constructor calls, call chains, callees that merely begin with the type name
+		ty = rng.choice(['A', 'Widget', 'int', 'Box::BoxItem', 'std::vector<int>'])
+		callee = rng.choice([ty, ty, ty + '_build', ty + 'x', 'x' + ty, 'build', ty + '::make'])
+		args = rng.choice(['', '1', 'a, b', 'f(1)', 'f(1), g(2)', '(1)', ')(', '('])
+		val = callee + '(' + args + ')' + rng.choice(['', '', '', '.dup()', '.n', ';', '(2)'])
+		ops.append(f'frag.initcall\t{hx(val)}\t{hx(ty)}')
+		try:
+			outs.append('true' if Py2Cpp.is_initializer_call(None, val, ty) else 'false')  # type: ignore[arg-type]
+		except Exception as e:  # noqa: BLE001
+			outs.append(exc_enum(e))
 		cases.append(({'kind': 'fragment'}, ops, outs))
 
 	# Enum.var_value on the enums of generated programs: members, and names that only share a prefix / suffix with a member
